@@ -24,10 +24,11 @@ import (
 
 // Case is one source file with a permission mode and (for replays) one fault.
 type Case struct {
-	Content string `json:"content"`
-	Mode    uint32 `json:"mode"`
-	Fault   string `json:"fault,omitempty"` // strace inject expression, e.g. "write:error=ENOSPC:when=1" or "renameat:signal=KILL:when=1"; "" = all faults
-	Check   bool   `json:"check_only,omitempty"`
+	Content string      `json:"content"`
+	Mode    uint32      `json:"mode"`
+	Fault   string      `json:"fault,omitempty"` // strace inject expression, e.g. "write:error=ENOSPC:when=1" or "renameat:signal=KILL:when=1"; "" = all faults
+	Check   bool        `json:"check_only,omitempty"`
+	Files   []MultiFile `json:"files,omitempty"` // several file arguments in one invocation (TestMulti)
 }
 
 var traced = "openat,read,write,close,renameat,renameat2,rename,fchmod,fchmodat,chmod,unlinkat,fsync,pwrite64,ftruncate"
@@ -391,6 +392,10 @@ func TestReplay(t *testing.T) {
 	var c Case
 	if _, err := h.LoadReplay(path, &c); err != nil {
 		t.Fatalf("cannot load replay: %v", err)
+	}
+	if len(c.Files) > 0 {
+		ctx.FinishReplay(t, checkMulti(c))
+		return
 	}
 	ctx.FinishReplay(t, checkCase(c, &stats{}))
 }
